@@ -379,11 +379,22 @@ class CircuitCompositeOperation(ICircuitCompositeOperation):
         :return: Modified self.
         """
         flatten_circuit_graph: CircuitGraphBranch = CircuitGraphBranch()
-        for operation in tqdm(self.decomposed_operations(), desc="Flatten Circuit Graph"):
-            CircuitGraphBranch.add_to_graph(
-                graph=flatten_circuit_graph,
-                operation=operation,
-            )
+        operations: List[ICircuitOperation] = self.decomposed_operations()
+        original_relation_links: List[IRelationLink] = [operation.relation_link for operation in operations]
+        try:
+            # Composite-operations disappear, operations related to one are related to its (decomposed) operations instead
+            for operation in operations:
+                operation.relation_link = CircuitCompositeOperation.decompose_relation_link(operation.relation_link)
+            for operation in tqdm(operations, desc="Flatten Circuit Graph"):
+                CircuitGraphBranch.add_to_graph(
+                    graph=flatten_circuit_graph,
+                    operation=operation,
+                )
+        except BaseException:
+            # Leave the (still nested) circuit as it was
+            for operation, relation_link in zip(operations, original_relation_links):
+                operation.relation_link = relation_link
+            raise
         self._circuit_graph = flatten_circuit_graph
         invalidate_start_time_memo()
         return self
@@ -422,6 +433,34 @@ class CircuitCompositeOperation(ICircuitCompositeOperation):
         for i in range(times - 1):
             self.extend(other=original_self.copy())
         return self
+
+    @staticmethod
+    def decompose_relation_link(link: IRelationLink[ICircuitOperation]) -> IRelationLink[ICircuitOperation]:
+        """
+        :return: Relation link in which every referenced composite-operation is replaced by its decomposed operations.
+        Following (or joining the end of) a composite-operation becomes following the latest of its operations,
+        joining its start becomes joining the earliest of its operations.
+        """
+        reference_nodes: List[ICircuitOperation] = []
+        if isinstance(link, MultiRelationLink):
+            reference_nodes = link._reference_nodes
+        elif link.reference_node is not None:
+            reference_nodes = [link.reference_node]
+        if not any(isinstance(node, ICircuitCompositeOperation) for node in reference_nodes):
+            return link
+        decomposed_nodes: List[ICircuitOperation] = []
+        for node in reference_nodes:
+            decomposed_nodes.extend(node.decomposed_operations())
+        if len(decomposed_nodes) == 0:
+            return link
+        relation_to_group: MultiRelationType = MultiRelationType.LATEST
+        if link.relation_type == RelationType.JOINED_START:
+            relation_to_group = MultiRelationType.EARLIEST
+        return MultiRelationLink(
+            _reference_nodes=decomposed_nodes,
+            _relation_to_group=relation_to_group,
+            _relation_type=link.relation_type,
+        )
 
     def get_sub_composite_operations(self) -> List[ICircuitCompositeOperation]:
         """:return: Array-like of all operations that are of instance ICircuitCompositeOperation."""
